@@ -1,15 +1,20 @@
 (* C17 — A remote job's status follows the server and survives transient faults.
    Only statements + [exact] + Print Assumptions live here.
 
-   Model/RemoteJob.v: [step c] is the RemoteJob code ([cfg_code]: as it is in /repo; [cfg_patch]: with the two
-   one-token repairs of the report), [spec_step] the automaton of the property statement (DESIGN A.5).  A trace is a
-   finite list of client actions, each carrying the server's answer for every request it may trigger; all theorems
-   quantify over all traces / all states (hence all reachable states).
+   Model/RemoteJob.v: [step c] is the RemoteJob code in two configurations.  [cfg_patch] is the code as it is in /repo
+   NOW (after the repairs 3528201e ">= _MAX_ERROR" and a6e53956 "execute on a job that has an identifier"; the
+   correspondence check of C17 runs dispatch 1700 = this configuration against the implementation, and the translator
+   re-derives its retry law from remote_job.py on every run: GenProofs/GenRemoteJobP.v).  [cfg_code] is the code as it
+   was at the pinned commit, kept so that the two refutations stay theorems about a named historical configuration.
+   [spec_step] is the automaton of the property statement (DESIGN A.5).  A trace is a finite list of client actions,
+   each carrying the server's answer for every request it may trigger; all theorems quantify over all traces / all
+   states (hence all reachable states).
 
-   FULL STATEMENT (refinement), false of the code as it is:
-       forall tr, run (step cfg_code) fresh_job tr = run spec_step fresh_job tr
-   refuted twice below (double send; sixth consecutive failure absorbed), proved for the repaired code on all traces,
-   and for the code as it is on the complement (traces along which no step meets one of the two defects). *)
+   FULL STATEMENT (refinement):
+       forall tr, run (step c) fresh_job tr = run spec_step fresh_job tr
+   proved for the code as it is now on all traces and all start states (C17_refinement_repaired); refuted twice for
+   the pinned code (double send; sixth consecutive failure absorbed), and proved for it on the complement (traces
+   along which no step meets one of the two defects). *)
 From Coq Require Import Lia.
 From PV Require Import Model.RemoteJob Proofs.RemoteJobP.
 Open Scope Z_scope.
